@@ -352,11 +352,11 @@ def judge_c14(spec, gs, tbs, inputs, diags, dumps, maps, tdiffs, byk, jobs, info
         if not parseable(gi, gs, tbs, diags, tdiffs, need_match=False): C['grammars_skipped'] += 1; continue
         tb = tbs[gi]
         for idx, data in enumerate(inputs[gi]):
-            r = byk.get((gi, idx, 0)) or byk.get((gi, idx, 11)) or byk.get((gi, idx, 20))
-            if r is None: continue
+          for r in [byk.get((gi, idx, m_)) for m_ in (0, 11, 20, 25)]:
+            if r is None or r.res == -2: continue
             C['evaluations'] += 1
             if r.mode == 11: C['runs_on_fixed_size_stacks'] += 1
-            if r.mode == 20: C['runs_through_context_parse'] += 1
+            if r.mode in (20, 25): C['runs_through_context_parse'] += 1
             nvals = r.events.count('=')
             C['values_tracked'] += nvals
             path = 'success' if r.res == 1 else ('recovery' if '] PARSE: Syntax error' in r.stream and g.has_error() else 'failure')
